@@ -30,6 +30,21 @@ CLAIMED = {
               "SVGPath.arcs_to_cubics) and two repaired defects, see known_findings.json."),
         technique="Lean 4 proof (induction over the walk) + d-string correspondence + Spec.interp-judged search",
         ref="DESIGN.md §4 C09"),
+    "C10": dict(
+        text=("Lean 4 theorems about the tokenizer model: every float/flag token is a prefix of the text it was matched "
+              "against (nothing skipped or invented), the peel loop's lexemes concatenated equal the argument tokens "
+              "concatenated (for any fuel-sufficient input, by induction), exploding keeps arguments in order with arity-sized "
+              "groups and only the implicit-repeat renaming; the regex sources and tables the scanners stand for are pinned by "
+              "generated equations. The model is tied to the code exhaustively (all strings <=4/5 chars over a 15-letter "
+              "alphabet, token sequences, both exploded modes) and the grammar half of the property (conforming strings give "
+              "exactly the grammar's sequence or ValueError; only ValueError escapes; print/parse round trip) is judged on the "
+              "implementation by the Lean BNF recognizer Spec.PathGrammar. Not yet proved in Lean: tokenizer = grammar "
+              "segmentation (parse_sound) and the print/parse round trip."),
+        note=("Trusted: Lean kernel; propext/Classical.choice/Quot.sound; Spec/PathGrammar.lean; translator; harness; CPython "
+              "float(). The scanners are hand-written meanings of the regexes (equality of regex sources checked; semantics tied "
+              "to Python re by exhaustive correspondence)."),
+        technique="Lean 4 proof (structural induction on the tokenizer) + exhaustive string correspondence + grammar-judged search",
+        ref="DESIGN.md §4 C10"),
 }
 
 def main():
